@@ -157,3 +157,23 @@ Example loop_nonvacuous :
   subn_counts [2; 5]%nat (Some 3) 1 [] = (1, 2%nat) /\
   subn_counts [1; 1]%nat None 0 [true] = (1, 1%nat).
 Proof. repeat split; reflexivity. Qed.
+
+(* ---- with the clamp at the entry: any integer count ---- *)
+Theorem negative_count_is_no_limit locs l0 count cbs : count < 0 -> subn_entry locs l0 count cbs = subn_entry locs l0 0 cbs.
+Proof. intros H. unfold subn_entry. destruct (Z.ltb_spec count 0); [reflexivity|lia]. Qed.
+
+Theorem entry_counts_are_substitutions locs l0 count cbs :
+  let c0 := if count <? 0 then 0 else count in
+  let s := locs_run locs l0 (init c0 cbs) in
+  subn_entry locs l0 count cbs = (Z.of_nat (nonzero (per_loc s)), sum (per_loc s)).
+Proof.
+  cbn zeta. unfold subn_entry. apply counts_are_substitutions. destruct (Z.ltb_spec count 0); lia.
+Qed.
+
+Theorem entry_unique_le_total locs l0 count cbs :
+  fst (subn_entry locs l0 count cbs) <= Z.of_nat (snd (subn_entry locs l0 count cbs)).
+Proof. unfold subn_entry. apply unique_le_total. destruct (Z.ltb_spec count 0); lia. Qed.
+
+Example entry_nonvacuous :
+  subn_entry [2; 5]%nat (Some 3) (-1) [] = (2, 5%nat) /\ subn_entry [2; 5]%nat (Some 3) (-7) [] = subn_entry [2; 5]%nat (Some 3) 0 [] /\ subn_entry [1; 1; 1]%nat None (-2) [] = (3, 3%nat).
+Proof. repeat split; reflexivity. Qed.
